@@ -1,6 +1,7 @@
 package core
 
 import (
+	"go/constant"
 	"fmt"
 	"go/types"
 	"sort"
@@ -73,6 +74,11 @@ type Node struct {
 	Recursive   bool // call not expanded because the callee is already on the context chain
 	Unmodelled  bool // function value handed to an unmodelled callee
 	ResolvedDyn bool // dynamic call through a parameter, resolved to a function literal in this context
+	// table dispatch: a call through a function taken out of a constant table (package-level map with constant
+	// string keys, filled once by the package initialiser): one inlined context per entry; DispatchKey is the
+	// lookup key, Dispatch[i] belongs to Succs[i]
+	DispatchKey ssa.Value
+	Dispatch    []DispatchTarget
 	First       bool // first node of its basic block
 }
 
@@ -81,6 +87,12 @@ func (n *Node) String() string {
 		return fmt.Sprintf("n%d<%d>", n.ID, n.Kind)
 	}
 	return fmt.Sprintf("n%d %s", n.ID, n.Instr.String())
+}
+
+// DispatchTarget: one entry of a constant function table.
+type DispatchTarget struct {
+	Key string
+	Ctx *Ctx
 }
 
 type XG struct {
@@ -424,6 +436,75 @@ func (g *XG) call(ctx *Ctx, in ssa.Instruction, c *ssa.CallCommon, deferred bool
 			n.ResolvedDyn = true
 		}
 	}
+	if callee == nil && !c.IsInvoke() {
+		if key, tab := g.P.tableLookup(c.Value); tab != nil && g.err == nil && ctx.Depth < 24 {
+			// dispatch through a constant function table
+			var keys []string
+			for k := range tab {
+				keys = append(keys, k)
+			}
+			sort.Strings(keys)
+			after := g.newNode(KAfter, ctx, in)
+			after.CallNode = n
+			n.Kind = KCall
+			n.DispatchKey = key
+			any := false
+			for _, k := range keys {
+				f := tab[k]
+				if f == nil || f.Blocks == nil || ctx.Has(f) {
+					continue
+				}
+				cctx := g.newCtx(f, ctx, n)
+				e, rets := g.instantiate(cctx)
+				n.Succs = append(n.Succs, e)
+				n.Dispatch = append(n.Dispatch, DispatchTarget{k, cctx})
+				for _, r := range rets {
+					r.Succs = []*Node{after}
+					r.CallNode = n
+					any = true
+				}
+			}
+			if len(n.Dispatch) > 0 {
+				if n.Inl == nil {
+					n.Inl = n.Dispatch[0].Ctx
+				}
+				if !any {
+					return n, nil
+				}
+				return n, after
+			}
+			n.Kind = KInstr
+		} else if fs := returnedFuncs(c.Value); len(fs) > 0 && g.err == nil && ctx.Depth < 24 {
+			// a call of a function value that a function of the module returned ("descr, run := t.payload(); run()"):
+			// any of the function literals that callee can return may run
+			after := g.newNode(KAfter, ctx, in)
+			after.CallNode = n
+			n.Kind = KCall
+			any := false
+			for _, f := range fs {
+				if f.Blocks == nil || ctx.Has(f) {
+					continue
+				}
+				cctx := g.newCtx(f, ctx, n)
+				e, rets := g.instantiate(cctx)
+				n.Succs = append(n.Succs, e)
+				n.Dispatch = append(n.Dispatch, DispatchTarget{"", cctx})
+				for _, r := range rets {
+					r.Succs = []*Node{after}
+					r.CallNode = n
+					any = true
+				}
+			}
+			if len(n.Dispatch) > 0 {
+				n.Inl = n.Dispatch[0].Ctx
+				if !any {
+					return n, nil
+				}
+				return n, after
+			}
+			n.Kind = KInstr
+		}
+	}
 	if callee == nil {
 		return n, n
 	}
@@ -585,5 +666,141 @@ func (g *XG) FuncsInlined() []string {
 		out = append(out, k)
 	}
 	sort.Strings(out)
+	return out
+}
+
+// tableLookup: v is a function value read out of a constant function table - Lookup(load(G), key) (possibly the
+// first component of a comma-ok lookup) where G is a package-level map of the module that is created and filled
+// once, with constant string keys and function values, by its package initialiser and never updated elsewhere.
+// Returns the key operand and the table.
+func (p *Prog) tableLookup(v ssa.Value) (ssa.Value, map[string]*ssa.Function) {
+	if ex, ok := v.(*ssa.Extract); ok && ex.Index == 0 {
+		v = ex.Tuple
+	}
+	lk, ok := v.(*ssa.Lookup)
+	if !ok {
+		return nil, nil
+	}
+	ld, ok := lk.X.(*ssa.UnOp)
+	if !ok {
+		return nil, nil
+	}
+	g, ok := ld.X.(*ssa.Global)
+	if !ok {
+		return nil, nil
+	}
+	if tab := p.ConstFuncTable(g); tab != nil {
+		return lk.Index, tab
+	}
+	return nil, nil
+}
+
+// ConstFuncTable returns the constant function table held by global g (see tableLookup), or nil.
+func (p *Prog) ConstFuncTable(g *ssa.Global) map[string]*ssa.Function {
+	if p.funcTables == nil {
+		p.funcTables = map[*ssa.Global]map[string]*ssa.Function{}
+		// all stores to globals and all map updates on loads of globals, program-wide
+		stores := map[*ssa.Global][]*ssa.Store{}
+		type upd struct {
+			mu *ssa.MapUpdate
+			fn *ssa.Function
+		}
+		updates := map[ssa.Value][]upd{} // keyed by the map value
+		for fn := range p.AllFuncs {
+			for _, b := range fn.Blocks {
+				for _, in := range b.Instrs {
+					switch x := in.(type) {
+					case *ssa.Store:
+						if gg, ok := x.Addr.(*ssa.Global); ok {
+							stores[gg] = append(stores[gg], x)
+						}
+					case *ssa.MapUpdate:
+						updates[x.Map] = append(updates[x.Map], upd{x, fn})
+					}
+				}
+			}
+		}
+		for gg, sts := range stores {
+			if gg.Pkg == nil || !strings.HasPrefix(gg.Pkg.Pkg.Path(), ModPath) || len(sts) != 1 || sts[0].Parent().Name() != "init" {
+				continue
+			}
+			mm, ok := sts[0].Val.(*ssa.MakeMap)
+			if !ok {
+				continue
+			}
+			tab := map[string]*ssa.Function{}
+			okTab := true
+			for _, u := range updates[mm] {
+				k, isK := u.mu.Key.(*ssa.Const)
+				if !isK || k.Value == nil || k.Value.Kind() != constant.String {
+					okTab = false
+					break
+				}
+				f := funcArg(u.mu.Value)
+				if f == nil {
+					okTab = false
+					break
+				}
+				tab[constant.StringVal(k.Value)] = f
+			}
+			// never updated through a load of the global elsewhere
+			for m, us := range updates {
+				if ld, ok := m.(*ssa.UnOp); ok && ld.X == ssa.Value(gg) && len(us) > 0 {
+					okTab = false
+				}
+			}
+			if okTab && len(tab) > 0 {
+				p.funcTables[gg] = tab
+			}
+		}
+	}
+	return p.funcTables[g]
+}
+
+// returnedFuncs: v is (a component of) the result of a static call of a module function all of whose returns
+// deliver, in that position, a function literal or named function: those functions.
+func returnedFuncs(v ssa.Value) []*ssa.Function {
+	idx := -1
+	if ex, ok := v.(*ssa.Extract); ok {
+		idx = ex.Index
+		v = ex.Tuple
+	}
+	call, ok := v.(*ssa.Call)
+	if !ok {
+		return nil
+	}
+	fac := call.Call.StaticCallee()
+	if fac == nil || fac.Blocks == nil {
+		return nil
+	}
+	var out []*ssa.Function
+	seen := map[*ssa.Function]bool{}
+	for _, b := range fac.Blocks {
+		for _, in := range b.Instrs {
+			rt, ok := in.(*ssa.Return)
+			if !ok {
+				continue
+			}
+			pos := idx
+			if pos < 0 {
+				if len(rt.Results) != 1 {
+					return nil
+				}
+				pos = 0
+			}
+			if pos >= len(rt.Results) {
+				return nil
+			}
+			f := funcArg(rt.Results[pos])
+			if f == nil {
+				// a named result spilled to a cell, or anything else: give up (the call stays opaque)
+				return nil
+			}
+			if !seen[f] {
+				seen[f] = true
+				out = append(out, f)
+			}
+		}
+	}
 	return out
 }
